@@ -10,7 +10,8 @@
      driven f n p i q        the step-wise scalar reference: n times { w := next(q); p.param := w; v := next(p) };
      outputs f n p           the outcomes of the next n calls of next(p) and the object afterwards;
      f is the recursion fuel of the model, binop the operator semantics (arbitrary). *)
-From Isobar Require Import Base.Prelude Pat.Val Pat.Syntax Pat.Step Pat.StepProofs Pat.Script Pat.Param Pat.ParamProofs Pat.ParamMore Pat.ParamLive Pat.ParamLiveProofs Pat.Osc Pat.OscProofs.
+From Isobar Require Import Base.Prelude Pat.Val Pat.Syntax Pat.Step Pat.StepProofs Pat.Script Pat.Param Pat.ParamProofs Pat.ParamMore Pat.ParamLive Pat.ParamLiveProofs Pat.Osc Pat.OscProofs Pat.WalkParam.
+From Isobar Require Pat.Chance.
 From Coq Require Import String QArith Permutation.
 Open Scope Z_scope.
 
@@ -350,4 +351,46 @@ Example C12_osc_nonvacuous :
        AP (PSequence (AL [AV (VFlt 0); AV (VFlt (1 # 4)); AV (VFlt (1 # 2)); AV (VFlt (3 # 4)); AV (VFlt 1); AV (VFlt (5 # 4))]) (AV (VInt 9)) 0 5)
   /\ fst (osc_scalar_outputs Tri (repeat (VInt 8) 5) [VFlt 0; VFlt (1 # 4); VFlt (1 # 2); VFlt (3 # 4); VFlt 1] (repeat (VInt 10) 5) (VFlt 0))
      = fst (osc_outputs Val.binop 10 8 5 o).
+Proof. vm_compute. repeat split. Qed.
+
+(** ** (7) PRandomWalk in both modes of its `wrap` flag (Pat/WalkParam.v over Pat/Chance.v's walk) *)
+(* the walk's bounds `min` / `max` as operands resolved with the engine's [value]; R, r_unit, r_below: the random source, arbitrary *)
+Section RandomWalk.
+  Variable R : Type.
+  Variable r_unit : R -> Z * R.
+  Variable r_below : Z -> R -> Z * R.
+  Variable binop : Val.op -> val -> val -> outcome val.
+  Variable LMAX : nat.
+
+  (* one output, wrap = true OR false, with pattern-valued bounds: it is the move the walk makes with the two numbers the patterns
+     give next, and each pattern has advanced by exactly one step - also when the move leaves the list (wrap = false) *)
+  Theorem C12_walk_use_one_step : forall f values wrap qm qx pos g a qm' b qx',
+    step binop LMAX f qm = (Yield (VInt a), qm') -> step binop LMAX f qx = (Yield (VInt b), qx') ->
+    rw_step R r_unit r_below binop LMAX (S f) values wrap (mkRW (AP qm) (AP qx) pos) g =
+      (let '(r, pos', g') := Chance.walk_step R r_unit r_below values a b wrap pos g in (r, mkRW (AP qm') (AP qx') pos', g')).
+  Proof. exact (rw_use_one_step R r_unit r_below binop LMAX). Qed.
+  Theorem C12_walk_const : forall f values wrap a da ma b db mb pos g,
+    konst (VInt a) da ma -> konst (VInt b) db mb -> (2 * da + 1 <= f)%nat -> (2 * db + 1 <= f)%nat ->
+    rw_step R r_unit r_below binop LMAX f values wrap (mkRW ma mb pos) g =
+      (let '(r, pos', g') := Chance.walk_step R r_unit r_below values a b wrap pos g in (r, mkRW ma mb pos', g')).
+  Proof. exact (rw_const_step R r_unit r_below binop LMAX). Qed.
+  (* n outputs: the k-th move is made with the k-th values of the two streams; each stream has then given exactly n values *)
+  Theorem C12_walk_use_schedule : forall f values wrap n qm qx pos g mins maxs qmn qxn,
+    outputs binop LMAX f n qm = (map (fun z => Yield (VInt z)) mins, qmn) ->
+    outputs binop LMAX f n qx = (map (fun z => Yield (VInt z)) maxs, qxn) ->
+    rw_outputs R r_unit r_below binop LMAX (S f) n values wrap (mkRW (AP qm) (AP qx) pos) g =
+      (let '(rs, posn, gn) := rw_scalar_outputs R r_unit r_below values wrap mins maxs pos g in (rs, mkRW (AP qmn) (AP qxn) posn, gn)).
+  Proof. exact (rw_use_schedule R r_unit r_below binop LMAX). Qed.
+End RandomWalk.
+Print Assumptions C12_walk_use_schedule.
+
+(* a toy random source (always the largest move, always downwards): the walk over [10; 20; 30] with wrap = false goes -2 (Python's index from the end), -1, -1 and
+   leaves the list on the third step; three steps have read exactly three values of each bound (the three-element sequences are back at their start, one repeat done) *)
+Example C12_walk_nonvacuous :
+  let qm := PSequence (AL [AV (VInt 1); AV (VInt 0); AV (VInt 1)]) (AV (VInt 9)) 0 0 in
+  let qx := PSequence (AL [AV (VInt 2); AV (VInt 1); AV (VInt 1)]) (AV (VInt 9)) 0 0 in
+  let r_unit := fun g : Z => (0, g + 1) in let r_below := fun (n : Z) (g : Z) => (n - 1, g + 1) in
+  let '(rs, o, g) := rw_outputs Z r_unit r_below Val.binop 10 6 3 [10; 20; 30] false (mkRW (AP qm) (AP qx) 0) 0 in
+  rs = [Chance.Out (Chance.OZ 20); Chance.Out (Chance.OZ 10); Chance.Fail]
+  /\ w_min o = AP (PSequence (AL [AV (VInt 1); AV (VInt 0); AV (VInt 1)]) (AV (VInt 9)) 1 0) /\ w_pos o = -4.
 Proof. vm_compute. repeat split. Qed.
